@@ -108,7 +108,18 @@ func formatArrayTypeName(v string) string {
 
 //ExtractValue info
 func ExtractValue(v reflect.Value, extractor ValueExtractor) {
-	v = RawValue(v)
+	// look through pointers and interface values; a nil pointer still contributes the
+	// types its static element type can contain
+	for v.IsValid() && (v.Kind() == reflect.Ptr || v.Kind() == reflect.Interface) {
+		if v.IsNil() {
+			if v.Kind() == reflect.Interface {
+				return
+			}
+			v = reflect.New(UnpackPtrType(v.Type())).Elem()
+			break
+		}
+		v = v.Elem()
+	}
 
 	if !extractor(v) {
 		return
